@@ -352,3 +352,49 @@ Proof.
   - intros Hq. apply (filter_map_eqb (fun k => LC (CRelax k d (N.of_nat k))) (fun k => LI k) is_LC q nq 0); auto. lia.
 Qed.
 End Own.
+
+(* reading of the vocabulary (every clause holds by unfolding definitions) *)
+Ltac voc := repeat match goal with |- _ /\ _ => split | |- forall _, _ => intro end; try reflexivity; try (split; let H := fresh in intros H; exact H).
+Lemma own_params_vocabulary :
+  forall (A D : Type) (theta : nat -> A) (dur : nat -> D) (used : list N),
+  (forall v th, own_params A D used (CRz v th) <->
+     (v < List.length used)%nat /\ call_args A D (CRz v th) = [Ttheta th] /\ call_indices A D (CRz v th) = [v]) /\
+  (forall k v q, own_params A D used (C1 k v q) <->
+     In q used /\ call_indices A D (C1 k v q) = [rk used q] /\ call_args A D (C1 k v q) = [Tp q; TT1 q; TT2 q]) /\
+  (forall k cv tv c t, own_params A D used (C2 k cv tv c t) <->
+     In c used /\ In t used /\ c <> t /\ call_indices A D (C2 k cv tv c t) = [rk used c; rk used t] /\
+     call_args A D (C2 k cv tv c t) = [Ttint c t; Tpint c t; Tp c; Tp t; TT1 c; TT2 c; TT1 t; TT2 t]) /\
+  (forall v d q, own_params A D used (CRelax v d q) <->
+     In q used /\ call_indices A D (CRelax v d q) = [rk used q] /\ call_args A D (CRelax v d q) = [Ttime d; TT1 q; TT2 q]) /\
+  (forall k q, own_params A D used (CBitflip k q) <->
+     nth_error used k = Some q /\ In q used /\ call_indices A D (CBitflip k q) = [rk used q] /\ call_args A D (CBitflip k q) = [Ttm q; Trout q]) /\
+  (forall q, rk used q = rank (labels used) (N.to_nat q)) /\ labels used = map N.to_nat used /\
+  (forall j q, own_calls A D theta dur used (j, mkinstr OpRz [q] []) = [CRz (rk used q) (theta j)] /\
+     own_calls A D theta dur used (j, mkinstr OpSx [q] []) = [C1 KSX (rk used q) q] /\
+     own_calls A D theta dur used (j, mkinstr OpX [q] []) = [C1 KX (rk used q) q] /\
+     own_calls A D theta dur used (j, mkinstr OpDelay [q] []) = (if memN q used then [CRelax (rk used q) (dur j) q] else [])) /\
+  (forall j c t, own_calls A D theta dur used (j, mkinstr OpCx [c; t] []) = [C2 KCX (rk used c) (rk used t) c t] /\
+     own_calls A D theta dur used (j, mkinstr OpEcr [c; t] []) = [C2 KECR (rk used c) (rk used t) c t]) /\
+  (forall j qs cs, own_calls A D theta dur used (j, mkinstr OpMeasure qs cs) = [] /\ own_calls A D theta dur used (j, mkinstr OpBarrier qs cs) = [] /\
+     own_calls A D theta dur used (j, mkinstr OpOther qs cs) = []) /\
+  (forall k cnt, own_readout A D used k cnt = map (fun i => CBitflip i (nth i used 0%N)) (seq k cnt)).
+Proof. voc. Qed.
+Lemma own_lparams_vocabulary :
+  forall (A D : Type) (theta : nat -> A) (dur : nat -> D) (nq : nat) (used : list N),
+  (forall k, own_lparams A D nq (LI k) <-> (k < nq)%nat) /\
+  (forall k v q, own_lparams A D nq (LC (C1 k v q)) <->
+     q = N.of_nat v /\ call_args A D (C1 k v q) = [Tp (N.of_nat v); TT1 (N.of_nat v); TT2 (N.of_nat v)]) /\
+  (forall k cv tv c t, own_lparams A D nq (LC (C2 k cv tv c t)) <->
+     c = N.of_nat cv /\ t = N.of_nat tv /\
+     call_args A D (C2 k cv tv c t) = [Ttint (N.of_nat cv) (N.of_nat tv); Tpint (N.of_nat cv) (N.of_nat tv); Tp (N.of_nat cv); Tp (N.of_nat tv);
+                                       TT1 (N.of_nat cv); TT2 (N.of_nat cv); TT1 (N.of_nat tv); TT2 (N.of_nat tv)]) /\
+  (forall v d q, own_lparams A D nq (LC (CRelax v d q)) <-> q = N.of_nat v /\ call_args A D (CRelax v d q) = [Ttime d; TT1 (N.of_nat v); TT2 (N.of_nat v)]) /\
+  (forall k q, own_lparams A D nq (LC (CBitflip k q)) <->
+     q = N.of_nat k /\ (k < nq)%nat /\ call_args A D (CBitflip k q) = [Ttm (N.of_nat k); Trout (N.of_nat k)]) /\
+  (forall j c t, own_groups A D theta dur used (j, mkinstr OpCx [c; t] []) = [G2 KCX (N.to_nat c) (N.to_nat t)] /\
+     own_groups A D theta dur used (j, mkinstr OpEcr [c; t] []) = [G2 KECR (N.to_nat c) (N.to_nat t)]) /\
+  (forall j q, own_groups A D theta dur used (j, mkinstr OpSx [q] []) = [G1 KSX (N.to_nat q)] /\
+     own_groups A D theta dur used (j, mkinstr OpX [q] []) = [G1 KX (N.to_nat q)] /\
+     own_groups A D theta dur used (j, mkinstr OpRz [q] []) = [GRz (N.to_nat q) (theta j)] /\
+     own_groups A D theta dur used (j, mkinstr OpDelay [q] []) = (if memN q used then [GRelax (N.to_nat q) (dur j)] else [])).
+Proof. voc. Qed.
